@@ -125,6 +125,8 @@ def get_ranges(headervalue, content_length):
                 # did not exist. (Normally, this means return a 200
                 # response containing the full entity)."
                 return None
+            # A last-byte-pos beyond the end means "up to the end" (rfc 7233 sec 2.1)
+            stop = min(stop, content_length - 1)
             # Prevent duplicate ranges. See Issue #59
             if (start, stop + 1) not in result:
                 result.append((start, stop + 1))
@@ -132,10 +134,14 @@ def get_ranges(headervalue, content_length):
             if not stop:
                 # See rfc quote above.
                 return None
-            # Negative subscript (last N bytes)
+            # Negative subscript (last N bytes, the whole entity if it is shorter)
+            start = max(content_length - int(stop), 0)
+            if start >= content_length:
+                # a suffix of zero bytes (or of an empty entity) is unsatisfiable
+                continue
             # Prevent duplicate ranges. See Issue #59
-            if (content_length - int(stop), content_length) not in result:
-                result.append((content_length - int(stop), content_length))
+            if (start, content_length) not in result:
+                result.append((start, content_length))
 
     # Can we satisfy the requested Range?
     # If we have an exceedingly high standard deviation
